@@ -202,9 +202,9 @@ def run(tier, seed):
     ctx = core.Ctx("C14", tier, seed, LEVEL)
     trace, srcs = [], {}
     import streams
-    plan = ([("member", "MC_C14_mq", 20000), ("trait", "MC_C14_tq", None), ("trait", "MC_C14_tq2", None), ("trait", "MC_C14_tq3", None), ("vfield", "MC_C14_vq", 20000), ("variant", "MC_C14_nq", 16000)] if tier == "quick"
+    plan = ([("member", "MC_C14_mq", 20000), ("trait", "MC_C14_tq", None), ("trait", "MC_C14_tq2", None), ("trait", "MC_C14_tq3", None), ("trait", "MC_C14_tq4", 20000), ("vfield", "MC_C14_vq", 20000), ("variant", "MC_C14_nq", 16000)] if tier == "quick"
             else [("member", "MC_C14_mq", None), ("member", "MC_C14_mt", None), ("member", "MC_C14_mt4", None), ("trait", "MC_C14_tq", None), ("trait", "MC_C14_tq2", None), ("trait", "MC_C14_tq3", None),
-                  ("trait", "MC_C14_tt", None), ("trait", "MC_C14_tt2", None), ("vfield", "MC_C14_vq", 300000), ("vfield", "MC_C14_vt", 300000),
+                  ("trait", "MC_C14_tt", None), ("trait", "MC_C14_tt2", None), ("trait", "MC_C14_tq4", None), ("vfield", "MC_C14_vq", 300000), ("vfield", "MC_C14_vt", 300000),
                   ("variant", "MC_C14_nq", None), ("variant", "MC_C14_nt", None)])
     for lvl, cfg, cap in plan:
         # TLC checks FoldOk (the fold as implemented refines the declarative requirement) on every sequence while it enumerates them; the
